@@ -49,6 +49,7 @@ Record sim_facts := mkSimFacts {
   f_win_lo : cmpk;       (* window: full_time_points > t_start *)
   f_win_hi : cmpk;       (* window: full_time_points <= t_end *)
   f_updvar_keeps : bool; (* update_variables keeps an override made since the last simulation *)
+  f_abs_time : bool;     (* _initialise_integrator hands the model ABSOLUTE time (rhs = model(t + _time_shift, y)) *)
   f_shapes_ok : bool     (* the functions modelled with a fixed shape are textually unchanged *)
 }.
 
